@@ -38,5 +38,7 @@ SEEDED = [
     ("C01-3", "C01-CLI"),
     ("C01-4", "C01-LOOP"),
     ("C01-5", "C01-CLI"),
+    ("C01-6", "C01-LOOP"),
+    ("C01-7", "C01-UNBOUND"),
 ]
 MUTANTS = list(MUTANTS) + [_P("seed-" + sid, _os.path.join(_SEEDS, sid, "patch.diff"), rule) for sid, rule in SEEDED if _os.path.exists(_os.path.join(_SEEDS, sid, "patch.diff"))]
